@@ -404,6 +404,18 @@ func (s *c09Scenario) deriveList(recv at.List, arg at.List, which int, resName s
 				b = n
 			}
 		}
+		if n > 1 && r.Chance(1, 6) {
+			// a range outside the documented domain (start beyond end, start below zero, end beyond the count): the call is
+			// expected to be rejected, and rejected or not it is no licence to change the receiver
+			bad := [][2]int{{n, 1}, {n - 1, 1}, {n, -(n - 1)}, {-1, n}, {0, n + 1}, {n + 1, n + 2}, {2, 1}}[r.Intn(7)]
+			var out at.List
+			drive.Protect(func() { out = recv.SubList(bad[0], bad[1]) })
+			s.c.Count("sublist_calls_outside_the_domain")
+			if out == nil {
+				return fmt.Sprintf("SubList(%d,%d) [outside the domain, panicked]", bad[0], bad[1]), nil
+			}
+			return fmt.Sprintf("SubList(%d,%d) [outside the domain, returned]", bad[0], bad[1]), out
+		}
 		return fmt.Sprintf("SubList(%d,%d)", a, b), recv.SubList(a, b)
 	case 2:
 		if r.Chance(1, 3) {
@@ -783,6 +795,13 @@ func c09Case(c *fw.Ctx, r *rng.R, forceOp int, pinned bool) {
 			recv, arg := mk(), mk()
 			if r.Chance(1, 6) {
 				arg = at.NewObject()
+			} else if r.Chance(1, 3) {
+				// an argument related to the receiver: shared keys that hold containers of the same kind on both sides, with
+				// partly different content (and one instance held by both)
+				both := at.NewList("held by both")
+				recv.Set("shared-obj", at.NewObject("only-recv", 1, "both", at.NewList(1), "deep", at.NewObject("r", 1)), "shared-list", at.NewList(1, 2), "same", both, "kind", at.NewList())
+				arg.Set("shared-obj", at.NewObject("only-arg", 2, "both", at.NewList(2), "deep", at.NewObject("a", 2)), "shared-list", at.NewList(3), "same", both, "kind", at.NewObject(), "extra", 1)
+				c.Count("related_arguments")
 			}
 			s.trace = append(s.trace, fmt.Sprintf("recv = %s; arg = %s", spec.Trunc(recv.String(), 200), spec.Trunc(arg.String(), 100)))
 			s.add("recv", recv)
